@@ -48,7 +48,11 @@ pub broadcast axiom fn ax_bridge_ok2()
     ensures #[trigger] bridge_ok::<String, String>();
 pub broadcast axiom fn ax_to_string_string(s: &String, r: String)
     ensures #[trigger] vstd::string::to_string_from_display_ensures::<String>(s, r) <==> r == *s;
-pub broadcast group bridge { ax_to_string_string, ax_str_of_view, ax_str_ext, ax_set_contains_str, ax_sets_differ_str, ax_bridge_ok, ax_bridge_ok2, ax_bkey_str, ax_bkey_string,
+pub broadcast axiom fn ax_to_string_refstr<'a>(s: &&'a str, r: String)
+    ensures #[trigger] vstd::string::to_string_from_display_ensures::<&'a str>(s, r) <==> r@ == (**s)@;
+pub broadcast axiom fn ax_to_string_refrefstr<'a, 'b>(s: &&'b &'a str, r: String)
+    ensures #[trigger] vstd::string::to_string_from_display_ensures::<&'b &'a str>(s, r) <==> r@ == (***s)@;
+pub broadcast group bridge { ax_to_string_string, ax_to_string_refstr, ax_to_string_refrefstr, ax_str_of_view, ax_str_ext, ax_set_contains_str, ax_sets_differ_str, ax_bridge_ok, ax_bridge_ok2, ax_bkey_str, ax_bkey_string,
     ax_string_of_view, ax_string_ext, ax_contains_str_key, ax_maps_str_key, ax_str_key_removed, ax_key_model }
 
 // ---- std functions vstd has no specification for ----
@@ -121,3 +125,23 @@ pub proof fn lemma_nodup_subset_full(order: Seq<String>, members: Set<String>)
 // ---- machine-size fact: a user table cannot hold usize::MAX entries (every entry occupies more than one byte of address space) ----
 pub broadcast axiom fn ax_hashmap_len_bound<V>(m: HashMap<String, V>)
     ensures #[trigger] m@.len() < usize::MAX;
+
+// ---- operators on strings: vstd has the PartialEqSpec trait but no instance for String ----
+use vstd::std_specs::cmp::*;
+pub broadcast axiom fn ax_string_eq_spec()
+    ensures #[trigger] <String as PartialEqSpec<String>>::obeys_eq_spec();
+pub broadcast axiom fn ax_string_eq_def(a: String, b: String)
+    ensures #[trigger] <String as PartialEqSpec<String>>::eq_spec(&a, &b) == (a@ == b@);
+pub broadcast axiom fn ax_string_str_eq_spec<'a>()
+    ensures #[trigger] <String as PartialEqSpec<&'a str>>::obeys_eq_spec();
+pub broadcast axiom fn ax_string_str_eq_def<'a>(a: String, b: &'a str)
+    ensures #[trigger] <String as PartialEqSpec<&'a str>>::eq_spec(&a, &b) == (a@ == b@);
+pub broadcast axiom fn ax_string_str2_eq_spec()
+    ensures #[trigger] <String as PartialEqSpec<str>>::obeys_eq_spec();
+pub broadcast axiom fn ax_string_str2_eq_def(a: String, b: &str)
+    ensures #[trigger] <String as PartialEqSpec<str>>::eq_spec(&a, b) == (a@ == b@);
+pub broadcast group string_eq { ax_string_str2_eq_spec, ax_string_str2_eq_def, ax_string_eq_spec, ax_string_eq_def, ax_string_str_eq_spec, ax_string_str_eq_def }
+
+// <[T]>::contains (std): true iff some element compares equal
+pub assume_specification<T: PartialEq>[<[T]>::contains](s: &[T], x: &T) -> (r: bool)
+    ensures <T as PartialEqSpec<T>>::obeys_eq_spec() ==> r == exists|i: int| 0 <= i < s@.len() && <T as PartialEqSpec<T>>::eq_spec(#[trigger] &s@[i], x);
